@@ -1024,3 +1024,121 @@ M.contract(P_EX + ':parse_atc_and_validate_symbols',
            in_documented_order(steps_of(trace)) and halts_at_first_failure(steps_of(trace))
            and failed(steps_of(trace)[-1]) and exc is steps_of(trace)[-1][3]}},
            raises_only=())
+
+
+# ====================================================================================== layer 2: the executor classes
+
+def _instruction_iface(main_returns):
+    class I(Interface):
+        """An instruction of one phase: every step returns a value of its result type, raises
+        HardErrorException or raises anything else."""
+        target_class = TestCaseInstruction
+        methods = {
+            'validate_pre_sds': Method(returns=SVH, may_raise=RAISES, event='instruction.validate_pre_sds'),
+            'validate_post_setup': Method(returns=SVH, may_raise=RAISES, event='instruction.validate_post_setup'),
+            'main': Method(returns=main_returns, may_raise=RAISES, event='instruction.main'),
+            'symbol_usages': Method(returns=Any_, may_raise=RAISES, event='instruction.symbol_usages'),
+        }
+
+    return I
+
+
+CONF_I, SETUP_I, BEFORE_ASSERT_I, ASSERT_I, CLEANUP_I = (_instruction_iface(t) for t in (SVH, SH, SH, PFH, SH))
+
+
+class EnvIterI(Interface):
+    """the iterator of per-instruction environments (one fresh environment per instruction)"""
+    methods = {'__next__': Method(returns=Any_, event='next-env')}
+
+
+def _env_of_trace(trace):
+    return [e for e in trace if e[0] == 'next-env:returned'][0][2]
+
+
+_PRE = dict(_instruction_environment=Any_)
+_POST = dict(_instruction_environments=Iface(EnvIterI))
+_MAIN = dict(_instruction_environments=Iface(EnvIterI), _instruction_settings=Any_, _os_services=Any_)
+
+# class -> (fields, instruction interface, method, kind of its result, the arguments it must be called with)
+EXECUTORS = {
+    psx.ConfigurationMainExecutor: (dict(_phase_environment=Any_), CONF_I, 'main', svh_kind,
+                                    lambda self, trace: (self._phase_environment,)),
+    psx.SetupValidatePreSdsExecutor: (_PRE, SETUP_I, 'validate_pre_sds', svh_kind,
+                                      lambda self, trace: (self._instruction_environment,)),
+    psx.BeforeAssertValidatePreSdsExecutor: (_PRE, BEFORE_ASSERT_I, 'validate_pre_sds', svh_kind,
+                                             lambda self, trace: (self._instruction_environment,)),
+    psx.AssertValidatePreSdsExecutor: (_PRE, ASSERT_I, 'validate_pre_sds', svh_kind,
+                                       lambda self, trace: (self._instruction_environment,)),
+    psx.CleanupValidatePreSdsExecutor: (_PRE, CLEANUP_I, 'validate_pre_sds', svh_kind,
+                                        lambda self, trace: (self._instruction_environment,)),
+    psx.SetupValidatePostSetupExecutor: (_POST, SETUP_I, 'validate_post_setup', svh_kind,
+                                         lambda self, trace: (_env_of_trace(trace),)),
+    psx.BeforeAssertValidatePostSetupExecutor: (_POST, BEFORE_ASSERT_I, 'validate_post_setup', svh_kind,
+                                                lambda self, trace: (_env_of_trace(trace),)),
+    psx.AssertValidatePostSetupExecutor: (_POST, ASSERT_I, 'validate_post_setup', svh_kind,
+                                          lambda self, trace: (_env_of_trace(trace),)),
+    psx.SetupMainExecutor: (dict(_settings_builder=Any_, **_MAIN), SETUP_I, 'main', sh_kind,
+                            lambda self, trace: (_env_of_trace(trace), self._instruction_settings, self._os_services,
+                                                 self._settings_builder)),
+    psx.BeforeAssertMainExecutor: (_MAIN, BEFORE_ASSERT_I, 'main', sh_kind,
+                                   lambda self, trace: (_env_of_trace(trace), self._instruction_settings,
+                                                        self._os_services)),
+    psx.AssertMainExecutor: (_MAIN, ASSERT_I, 'main', pfh_kind,
+                             lambda self, trace: (_env_of_trace(trace), self._instruction_settings,
+                                                  self._os_services)),
+    psx.CleanupMainExecutor: (dict(_previous_phase=EnumOf(PreviousPhase), **_MAIN), CLEANUP_I, 'main', sh_kind,
+                              lambda self, trace: (_env_of_trace(trace), self._instruction_settings,
+                                                   self._os_services, self._previous_phase)),
+}
+
+
+def _executor_contract(cls, fields, iface, method, kind_of_result, expected_args):
+    event = 'instruction.' + method
+    instruction_events = ['instruction.' + m for m in iface.methods]
+
+    def calls_exactly(self, instruction, trace):
+        """one call of one method of the instruction -- the step's -- with the arguments the executor holds;
+        the environment is a fresh one from the executor's iterator where the step gets one per instruction"""
+        return [e for e in trace if e[0] in instruction_events] == [(event, instruction, expected_args(self, trace))] \
+            and len(calls_of(trace, 'next-env')) == (1 if '_instruction_environments' in fields else 0)
+
+    M.contract('%s:%s.apply' % (P_PSX, cls.__name__),
+               params=dict(self=Inst(cls, **fields), instruction=Iface(iface)), returns=Opt(FAIL_INFO),
+               ensures={
+                   "calls the step's method of the instruction, once, with the executor's arguments":
+                       lambda self, instruction, trace: calls_exactly(self, instruction, trace),
+                   'None iff the instruction succeeded, else the kind of its failure': lambda result, trace:
+                   (result is None and kind_of_result(outcome_event(trace, event)[1]) is None)
+                   or (result is not None and result.status.name == kind_of_result(outcome_event(trace, event)[1])),
+               },
+               raises={HardErrorException: {'ensures': lambda self, instruction, exc, trace:
+               calls_exactly(self, instruction, trace) and outcome_event(trace, event) == ('raised', exc)},
+                       ArbitraryException: {'ensures': lambda self, instruction, exc, trace:
+                       calls_exactly(self, instruction, trace) and outcome_event(trace, event) == ('raised', exc)}},
+               raises_only=())
+
+
+for _cls, _spec in EXECUTORS.items():
+    _executor_contract(_cls, *_spec)
+
+for _f, _shape, _kind in (('_from_success_or_validation_error_or_hard_error', SVH, svh_kind),
+                          ('_from_success_or_hard_error', SH, sh_kind),
+                          ('_from_pass_or_fail_or_hard_error', PFH, pfh_kind)):
+    M.contract('%s:%s' % (P_PSX, _f), params=dict(res=_shape), ghosts=dict(kind=Const(_kind)), inline=True,
+               ensures={'None iff success, else the kind of failure': lambda res, kind, result:
+               (result is None and kind(res) is None) or (result is not None and result.status.name == kind(res)),
+                        'carries the message': lambda res, result: result is None or result.error_message is res[-1]},
+               raises_only=())
+
+M.contract(P_SV + ':ValidateSymbolsExecutor.apply',
+           params=dict(self=Inst(psv.ValidateSymbolsExecutor, _ValidateSymbolsExecutor__symbols=Iface(SymbolTableI)),
+                       symbol_user=Iface(SETUP_I)), returns=Opt(FAIL_INFO), inline=True,
+           ensures={'checks the symbol usages of the instruction against the one table': lambda self, symbol_user, trace:
+           calls_of(trace, 'instruction.symbol_usages') == [('instruction.symbol_usages', symbol_user, ())]
+           and len(calls_of(trace, 'validate_symbol_usages')) == 1
+           and calls_of(trace, 'validate_symbol_usages')[0][1]['symbols'] is self._ValidateSymbolsExecutor__symbols
+           and calls_of(trace, 'validate_symbol_usages')[0][1]['symbol_usages']
+           is outcome_event(trace, 'instruction.symbol_usages')[1],
+                    'gives its verdict': lambda result, trace: result is outcome_event(trace, 'validate_symbol_usages')[1]},
+           raises={HardErrorException: {}, ArbitraryException: {}},
+           raises_only=())
